@@ -206,16 +206,43 @@ func Harness_C08_intRoundTrip() {
 	zzsym.Reach("c08.ints")
 }
 
-// Harness_C08_float: the default Float binding reports non-finite values as
-// errors and emits a JSON number token for every finite float64 bit pattern.
+// Harness_C08_float: for every float64 bit pattern the default Float binding
+// (FloatContext) reports non-finite values as errors and otherwise emits a
+// valid JSON number token that decodes to exactly the original value, and
+// unmarshalling the decoded value (as float64, json.Number or string) gives
+// the original back; the plain Float binding does the same for finite
+// values. The digit generation of strconv/fmt is a contract model under the
+// engine (shortest text that parses back to the value at the formatter's bit
+// size); the native replays run the real formatter.
 func Harness_C08_float() {
 	f := zzsym.Float64("f")
 	var buf bytes.Buffer
-	err := MarshalFloatContext(f).MarshalGQLContext(nil, &buf)
 	finite := !math.IsInf(f, 0) && !math.IsNaN(f)
-	zzsym.Assert((err == nil) == finite, "MarshalFloatContext errors exactly on non-finite values")
-	if err != nil {
-		zzsym.Assert(buf.Len() == 0, "nothing is emitted for a non-finite float")
+	if zzsym.Choice("binding", 2) == 1 {
+		zzsym.Assume(finite) // the plain binding has no error channel: finite values only
+		MarshalFloat(f).MarshalGQL(&buf)
+	} else {
+		err := MarshalFloatContext(f).MarshalGQLContext(nil, &buf)
+		zzsym.Assert((err == nil) == finite, "MarshalFloatContext errors exactly on non-finite values")
+		if err != nil {
+			zzsym.Assert(buf.Len() == 0, "nothing is emitted for a non-finite float")
+			zzsym.Reach("c08.float")
+			return
+		}
 	}
+	v, ok := zzsym.FloatToken(buf.String())
+	zzsym.Assert(ok, "a finite float is emitted as a valid JSON number token")
+	zzsym.Assert(v == f, "the emitted number decodes to exactly the original float64")
+	var back float64
+	var err error
+	switch zzsym.Choice("decoded-as", 3) {
+	case 0:
+		back, err = UnmarshalFloatContext(nil, v)
+	case 1:
+		back, err = UnmarshalFloatContext(nil, json.Number(buf.String()))
+	case 2:
+		back, err = UnmarshalFloat(buf.String())
+	}
+	zzsym.Assert(err == nil && back == f, "unmarshalling the decoded value gives the original back")
 	zzsym.Reach("c08.float")
 }
